@@ -38,9 +38,9 @@ UNPROVED = ["ops_commute_rot90 is proved only in the *_rot90_partial form (grad,
             "fields, both axes of the plane open or both periodic, ndim<=4; other k, masks and the vector Laplacian are checked by the oracle on the real code only",
             "div_perm/curl_perm (DESIGN.md): invariance under permuting the storage order together with the mapping is oracle-only; div_eq/curl_eq state the "
             "pairing per stored component through the mapping and div_relabel proves independence of label spelling",
-            "the full-strength rotation claim is FALSE of the code in two input classes: candidate finding D21 (vector Laplacian under a non-positional mapping; "
-            "behaviour stated by theorem laplace_vector_meta) and candidate finding D22 (Mesh.rotate90 keeps bc in place; hypothesis periodic f a = periodic f b of the theorems)"]
-BUDGET = {"quick": 90, "thorough": 900}
+            "the full-strength rotation claim is FALSE of the code in two input classes: candidate finding D55 (vector Laplacian under a non-positional mapping; "
+            "behaviour stated by theorem laplace_vector_meta) and candidate finding D56 (Mesh.rotate90 keeps bc in place; hypothesis periodic f a = periodic f b of the theorems)"]
+BUDGET = {"quick": 120, "thorough": 1200}
 
 DIMPOOL = ["x", "y", "z", "a", "b", "c", "u", "v", "w", "t"]
 LABELPOOL = ["p", "q", "r", "s", "g", "h", "e", "k", "ma", "mb", "mc", "b1", "b2", "b3"]
@@ -795,15 +795,15 @@ def known(case, text):
     m = re.match(r"rot90\((\w+),(\w+),k=(\d)\) (\w+):", text)
     if m:
         a, b, k, op = m.group(1), m.group(2), int(m.group(3)), m.group(4)
-        # candidate D22: Mesh.rotate90 leaves bc in place; odd k with exactly one of the two axes periodic
+        # candidate D56: Mesh.rotate90 leaves bc in place; odd k with exactly one of the two axes periodic
         if k % 2 == 1 and ((a in ms["bc"]) != (b in ms["bc"])):
-            return "D22"
+            return "D56"
         if op == "laplace" and nonpos:
-            return "D21"
+            return "D55"
         return None
-    # candidate D21: vector Laplacian relabels its result x,y,z with the positional mapping
+    # candidate D55: vector Laplacian relabels its result x,y,z with the positional mapping
     if text.startswith("laplace-pairing:") and nonpos:
-        return "D21"
+        return "D55"
     return None
 
 
